@@ -215,6 +215,31 @@ pub mod server_storage {
     pub use d_engine_proto::server::storage::SnapshotMetadata;
 }
 
+/// Verification hook (compiled only with `--cfg d_engine_verif`; add-only, no behaviour change):
+/// forwards to the crate-private conversions of `proto_convert` so that an out-of-tree harness can
+/// call them.
+#[cfg(d_engine_verif)]
+pub mod verif_proto_convert {
+    pub fn write_command_to_op(
+        wc: d_engine_proto::client::WriteCommand
+    ) -> d_engine_core::client::WriteOperation {
+        crate::proto_convert::write_command_to_op(wc)
+    }
+
+    pub fn fast_path_batch_read_response(
+        keys: &[bytes::Bytes],
+        values: Vec<Option<bytes::Bytes>>,
+    ) -> d_engine_proto::client::ClientResponse {
+        crate::proto_convert::fast_path_batch_read_response(keys, values)
+    }
+
+    pub fn to_proto_response(
+        r: d_engine_core::client::ClientResponse
+    ) -> d_engine_proto::client::ClientResponse {
+        crate::proto_convert::to_proto_response(r)
+    }
+}
+
 // ==================== Internal API (Hidden) ====================
 mod membership;
 mod network;
